@@ -20,7 +20,7 @@ RULE = ("E3: for every unit u in {'seconds','minutes','hours',1,2,7,60,90,"
         "integer factor 1..128 (512) and 150..86400 x every whole multiple "
         "k=0..40 (100) of it as start/duration; each pair is parsed in four "
         "orders of loading/parsing the two configurations in one process "
-        "(immediately, both loaded first, reversed, sections interleaved); "
+        "(immediately, both loaded first, reversed, sections interleaved, each parsed twice); "
         "non-trivial = unit with f>1")
 
 UNITS = ["seconds", "minutes", "hours", 1, 2, 7, 60, 90, 3600]
@@ -36,7 +36,7 @@ def _path(cfg):
 
 
 ORDERS = ("immediate", "load-both-then-parse", "load-both-parse-reversed",
-          "interleave-sections")
+          "interleave-sections", "parse-each-twice")
 
 
 def parse_pair(cfg_s, cfg_u, order):
@@ -52,6 +52,12 @@ def parse_pair(cfg_s, cfg_u, order):
     if order == "load-both-parse-reversed":
         rb = parse(b)
         return parse(a), rb
+    if order == "parse-each-twice":
+        # the result of parsing a configuration object must not depend on
+        # whether it has been parsed before (two actor sets from one Config)
+        parse(a)
+        parse(b)
+        return parse(a), parse(b)
     # interleave the sections of the two configurations
     ra, rb = {}, {}
     ra["cl"] = a.parse_cluster_config()
@@ -232,7 +238,7 @@ def run(rep, tier, seed):
         s["cases"] += 1
         s["executions"] += 2
         rep.evaluations += 1
-        rep.transitions += 24
+        rep.transitions += 36
         if factor(c["unit"]) > 1:
             rep.nontrivial.add(len(rep.nontrivial))
         for clause, cause, det in vs:
